@@ -32,6 +32,8 @@ LeavesOf(f) ==
            \* the end of the embedded program and must skip those of nested string literals
            {Lit(1), Lit(2), Emp, W("dup"), W("elem"), Seq12, Str(<<")">>), Str(<<"(", "a">>), W("add"), W("drop")}
       [] f = "blocks" -> {Name("A"), Name("B"), Lit(3)}
+      \* who sees which binding: operands of infix operators, branches, sub-expressions, all binding and reading A / B
+      [] f = "scopes" -> {Name("A"), Name("B"), Lit(1), Lit(2)}
 
 UnaryOf(f) ==
     CASE f = "altor" -> {"cap", "sub?", "opt", "let1"}
@@ -41,6 +43,7 @@ UnaryOf(f) ==
            {"letA", "letAB", "scopeA", "capA", "subA", "bapply", "letF", "star"}
       [] f = "fmt" -> {"fmt1", "fmt2", "fmts", "cap", "opt"}
       [] f = "blocks" -> {"bapply", "letFcall"}
+      [] f = "scopes" -> {"letA", "letB", "scopeA", "subA", "capA"}
 
 BinaryOf(f) ==
     CASE f = "altor" -> {"cat", "alt", "or"}
@@ -49,6 +52,7 @@ BinaryOf(f) ==
       [] f = "names" -> {"cat", "alt", "or"}
       [] f = "fmt" -> {"cat", "alt", "fmt3"}
       [] f = "blocks" -> {"cat"}
+      [] f = "scopes" -> {"cat", "eq", "alt", "or"}
 
 MkUnary(u, a) ==
     CASE u = "cap"  -> Cap(a)
@@ -167,7 +171,7 @@ UsesBlocksParts(parts, j) ==
 
 \* what a family puts between the input source and the body
 Prefix(f) ==
-    IF f = "blocks" THEN Cat(Let(<<"A">>, Emp), Let(<<"B">>, Lit(7)))   \* let A := ; let B := 7;
+    IF f \in {"blocks", "scopes"} THEN Cat(Let(<<"A">>, Emp), Let(<<"B">>, Lit(7)))   \* let A := ; let B := 7;
     ELSE Emp
 
 \* The body is legal on a stack of depth d: names closed, effect defined.
